@@ -28,6 +28,7 @@ Inductive label :=
 | LCrash (n : nid)
 | LRestart (n : nid)
 | LBudget (n : nid) (k : N)              (* arm the crash point: n freezes at its (k+1)-th storage write from now *)
+| LPad (n : nid) (k : N)                 (* harness configuration: n's state machine pads its snapshots with k zero bytes *)
 (* goroutines / loops taking the lock; [settle] fires these *)
 | LTask (n : nid)
 | LElectionRun (n : nid) | LCommit (n : nid) | LApply (n : nid) | LRo (n : nid)
@@ -131,7 +132,7 @@ Definition label_node (l : label) (w : world) : option nid :=
   | LCrash n | LRestart n | LTask n | LElectionRun n | LCommit n | LApply n | LRo n | LInstallResume n => Some n
   | LDeliver c | LDup c => option_map c_dst (get_call w c)
   | LReply c | LFail c => option_map c_src (get_call w c)
-  | LBudget n _ => Some n
+  | LBudget n _ | LPad n _ => Some n
   | LTick _ => None
   end.
 
@@ -193,6 +194,7 @@ Definition step (w : world) (l : label) : world :=
   | LCrash n => drop_calls_of (on_node w n crash) n
   | LRestart n => on_node w n (fun m => if role_eqb (n_role m) Shutdown then restart_after_crash now m else m)
   | LBudget n k => on_node w n (fun m => m <| n_budget := Some k |>)
+  | LPad n k => on_node w n (fun m => m <| n_pad := k |>)
   end.
 
 Definition run (w : world) (ls : list label) : world := fold_left step ls w.
@@ -232,7 +234,7 @@ Definition mk_node (id : nid) (et ld : N) : node :=
      n_commit := 0; n_applied := 0; n_lii := 0; n_lit := 0; n_conf := None; n_cconf := None; n_leader := None;
      n_followers := []; n_pending := []; n_ro := []; n_should_verify := true; n_cfg_fid := None; n_hb_rounds := 0; n_lease := 0; n_contact := 0;
      n_rounds := []; n_next_round := 0; n_tasks := []; n_cv := conds0; n_iswait := []; n_fsm := [];
-     n_snap_every := 0; n_budget := None; n_frozen := false; n_out := Ok; n_results := []; n_applies := [] |}.
+     n_snap_every := 0; n_pad := 0; n_budget := None; n_frozen := false; n_out := Ok; n_results := []; n_applies := [] |}.
 
 (* every node bootstrapped with the same member list (all voters), as the test suite does, then started *)
 Definition init_world (ids : list nid) (boot : list nid) (et ld : N) : world :=
